@@ -299,6 +299,15 @@ def generate(problems):
             continue
         hrows.append("(%s, %s, %s, %s)" % (lean_str(name), lean_str(_name_of(h.serializer)), lean_str(_name_of(h.base_deserializer)), lean_str(_name_of(h.type_check))))
     body += "def registered : List (String × String × String × String) := [\n  %s]\n" % ",\n  ".join(hrows)
+    # deserializer_exceptions of every built-in handler (what RegisteredType.deserializer turns into ValueError)
+    erows = []
+    for name in BUILTIN_REGISTERED:
+        h = by_name.get(name)
+        if h is None:
+            continue
+        excs = h.deserializer_exceptions if isinstance(h.deserializer_exceptions, tuple) else (h.deserializer_exceptions,)
+        erows.append("(%s, %s)" % (lean_str(name), lean_str_list([e.__name__ for e in excs])))
+    body += "def registeredExc : List (String × List String) := [\n  %s]\n" % ",\n  ".join(erows)
 
     # timedelta deserializer literals
     pattern, prefix, trigger, refn, conv = timedelta_literals(m, problems)
